@@ -87,10 +87,12 @@ def setup(warm_jax=True):
 
 
 def gen_case(streams, tier):
+    import json
+
     from checks import qgen
 
     w, s = streams["workload"], streams["rngseam"]
-    n = w.choice([1, 2, 2, 3, 3, 4, 5])
+    n = w.choice([1, 2, 2, 3, 3, 4, 5] * 4 + [9])  # rarely more than eight wires (bit strings longer than a byte)
     wires = list(range(n))
     # a first layer touching every wire in order: the circuit's own wire order is then 0..n-1, so no
     # assumption about how a device orders the wires of a circuit that skips some is baked in
@@ -123,7 +125,23 @@ def gen_case(streams, tier):
     if rng == "jax":
         # XLA compiles once per (shots, wires) shape and per worker process: keep the shape set small
         shots = w.choice([5, 5, [2, 3]])
-    return {"n": n, "ops": ops, "mps": mps, "shots": shots, "device": dev, "rng": rng,
+    if n > 5:
+        # keep the wide case cheap: basis-state style measurements only, one device
+        mps = [["counts", list(wires), False]] + ([["sample", w.sample(wires, 3)]] if w.random() < 0.5 else [])
+        dev, rng, shots = "qubit", "numpy", w.choice([5, 20, [4, 9]])
+    # the same request routed through the transforms that serve devices returning only raw samples / counts
+    via = None
+    if dev == "qubit" and rng == "numpy" and w.random() < 0.2:
+        via = w.choice(["from_samples", "from_counts"])
+        if via == "from_counts" and any(m[0] == "sample" for m in mps):
+            via = "from_samples"  # per-shot order cannot be recovered from counts
+        if any(tag in json.dumps(mps) for tag in ('"H"', '"HM"', '"Proj"')):
+            # the transforms do not diagonalise Hermitian observables (and take a Projector next to a rotated
+            # Pauli on the same wire) and silently post-process the undiagonalised samples (observed: <H> =
+            # -1.02 for an exact 1.45) -- that is the diagonalisation transform's business (outside this
+            # property, DESIGN 13.4), so only Pauli words and wire measurements take these routes
+            via = None
+    return {"n": n, "ops": ops, "mps": mps, "shots": shots, "device": dev, "rng": rng, "via": via,
             "policy": s.choice(POLICIES), "decide_seed": s.getrandbits(32), "dev_seed": w.randint(0, 2**31 - 1)}
 
 
@@ -348,10 +366,19 @@ def run_case(case):
             seed = simrng.SimGenerator(np.random.PCG64(case["dev_seed"]), hub)
         dev = qp.device("default.qubit" if case["device"] == "qubit" else "default.mixed", wires=n, seed=seed)
         tape = qgen.build_tape({"ops": case["ops"], "mps": case["mps"], "shots": shots})
+        via_fn = None
+        run_tape = tape
+        if case.get("via"):
+            try:
+                (run_tape,), via_fn = getattr(qp.devices.preprocess, "measurements_" + case["via"])(tape)
+            except Exception:  # noqa: BLE001 - the transform does not apply (e.g. non-commuting measurements)
+                run_tape, via_fn = tape, None
         try:
-            res = qp.execute([tape], dev, diff_method=None, cache=False)[0]
+            res = qp.execute([run_tape], dev, diff_method=None, cache=False)[0]
+            if via_fn is not None:
+                res = via_fn((res,))
         except Exception as e:  # noqa: BLE001
-            viol("unexpected_exception", {}, {"error": repr(e)[:300]})
+            viol("unexpected_exception", {"via": case.get("via") if via_fn else None}, {"error": repr(e)[:300]})
             res = None
     finally:
         _ENV["hub"] = None
@@ -360,6 +387,10 @@ def run_case(case):
     counters = {"draws": len(offers), "measurements": len(case["mps"]), "policy:" + case["policy"]: 1,
                 "device:" + case["device"]: 1, "rng:" + case["rng"]: 1, "shot_vectors": int(len(bins) > 1),
                 "associations_ambiguous": 0, "offers_subset_layout": 0}
+    if case.get("via"):
+        counters["via:" + case["via"] + ("" if via_fn is not None else ":not_applicable")] = 1
+    if n > 8:
+        counters["more_than_eight_wires"] = 1
     if res is not None:
         if not offers:
             # the implementation does not sample through choice(p=...) here: the simulator decides nothing,
